@@ -82,6 +82,11 @@ CHECKS = {
                      "several units, timeframes all/s1/s2 and destination sets (default, singletons, all, a pair): the "
                      "reported amount equals net gain of the destinations + discarded within output rounding, a "
                      "ValueError iff the ledger shows a net decrease, and stage amounts add up."),
+    'C15': dict(engine=E1, design='§4 C15',
+                technique="symbolic execution of bake + get_container_flows / get_amount_remaining vs the eager step-boundary ledger; z3 decides equalities, non-negativity and the balance identity",
+                text="for every object used in baked programs over the C08 templates, per well for the plate, over "
+                     "all/s1/s2: remaining before/after equals the ledger's content at the start/end, in/out equal the "
+                     "ledger's gains/losses, flows >= 0 and in - out = change in remaining, output rounding modelled."),
     'C02': dict(engine=E1, design='§4 C02',
                 technique="symbolic execution of Container.transfer/Plate.transfer with z3 (QF_NRA/LRA), differential vs independent unit table",
                 text="size of the aliquot (in the unit of q), uniformity (cross-multiplied ratios) and destination gain "
